@@ -378,9 +378,10 @@ def isVal : Exp → Bool
   | .ref .. => false
   | _ => true
 
-/-- `Parser.ParseValExp` on a token sequence -/
+/-- `Parser.ParseValExp` on a token sequence (the fuel `2·length + 1` is never
+exhausted by the token sequence of a printed expression: `cost_le`) -/
 def parseToks (ts : List Tok) : Option Exp :=
-  match pExp (ts.length + 1) ts with
+  match pExp (2 * ts.length + 1) ts with
   | some (e, []) => if isVal e then some e else none
   | _ => none
 
@@ -394,7 +395,8 @@ def isFloatTok (t : Bytes) : Bool := numTok false t == .float t
 
 mutual
 /-- the documented normalisations: a nil array prints as `null`; a float whose
-'g' text has neither fraction nor exponent reads back as an integer -/
+'g' text has neither fraction nor exponent reads back as an integer; an empty
+struct literal prints as `{}`, which the grammar reads as an empty map -/
 def norm : Exp → Exp
   | .nilArr => .null
   | .float t => if isFloatTok t then .float t else
@@ -403,7 +405,8 @@ def norm : Exp → Exp
       | none => .float t
   | .arr xs => .arr (normL xs)
   | .map kvs => .map (normKV kvs)
-  | .struct kvs => .struct (normKV kvs)
+  | .struct [] => .map []
+  | .struct (kv :: r) => .struct (normKV (kv :: r))
   | e => e
 def normL : List Exp → List Exp
   | [] => []
